@@ -70,9 +70,9 @@ def guarded(ctx, V, what, fn):
 def col_options(tier):
     if tier == "quick":
         return [("given", 1), ("given", 2), ("given", 4), ("pack", 1), ("pack", 3), ("packflow", 2),
-                ("weight", 1), ("weight", 2), ("weight", 3), ("boxweight", 1)]
+                ("weight", 1), ("weight", 2), ("weight", 3), ("weight", 1.5), ("boxweight", 1)]
     return [("given", 1), ("given", 2), ("given", 3), ("given", 5), ("pack", 1), ("pack", 2), ("pack", 4),
-            ("packflow", 2), ("packflow", 4), ("weight", 1), ("weight", 2), ("weight", 3), ("weight", 7),
+            ("packflow", 2), ("packflow", 4), ("weight", 1), ("weight", 2), ("weight", 3), ("weight", 7), ("weight", 1.5), ("weight", 0.5),
             ("boxweight", 1), ("boxgiven", 2)]
 
 
@@ -258,9 +258,9 @@ def columns_task(task, ctx: Ctx):
 # ----------------------------------------------------------------------
 def pile_options(tier):
     if tier == "quick":
-        return [("given", 1), ("given", 2), ("pack", 1), ("pack", 2), ("weight", 1), ("weight", 2), ("weight", 3)]
+        return [("given", 1), ("given", 2), ("pack", 1), ("pack", 2), ("weight", 1), ("weight", 2), ("weight", 3), ("weight", 1.5)]
     return [("given", 1), ("given", 2), ("given", 3), ("pack", 1), ("pack", 2), ("pack", 4), ("weight", 1), ("weight", 2),
-            ("weight", 3), ("weight", 7)]
+            ("weight", 3), ("weight", 7), ("weight", 1.5), ("weight", 0.5)]
 
 
 def build_pile(combo, focus):
@@ -691,8 +691,9 @@ def overlay_task(task, ctx: Ctx):
 # ----------------------------------------------------------------------
 # part F: GridFlow
 # ----------------------------------------------------------------------
-def check_gridflow(ctx: Ctx, ncells, cw, hsep, vsep, align, focus, maxcol, tall):
-    case = {"part": "gridflow", "cells": ncells, "cell_width": cw, "h_sep": hsep, "v_sep": vsep, "align": align, "focus": focus, "maxcol": maxcol, "tall": tall}
+def check_gridflow(ctx: Ctx, ncells, cw, hsep, vsep, align, focus, maxcol, tall, wide=None):
+    """wide: index of one cell that carries its own, larger width option (cell width + 2)"""
+    case = {"part": "gridflow", "cells": ncells, "cell_width": cw, "h_sep": hsep, "v_sep": vsep, "align": align, "focus": focus, "maxcol": maxcol, "tall": tall, "wide": wide}
 
     def V(clause, detail, site=""):
         ctx.violation(clause, f"C19/gridflow/{clause}{('/' + site) if site else ''}", case, detail)
@@ -702,26 +703,31 @@ def check_gridflow(ctx: Ctx, ncells, cw, hsep, vsep, align, focus, maxcol, tall)
     ok, gf = guarded(ctx, V, "GridFlow()", lambda: urwid.GridFlow(probes, cw, hsep, vsep, align, focus=focus))
     if not ok:
         return
+    if wide is not None:
+        ok, _ = guarded(ctx, V, "contents[i]=", lambda: gf.contents.__setitem__(wide, (probes[wide], gf.options("given", cw + 2))))
+        if not ok:
+            return
     ctx.count("evaluations")
     ok, canv = guarded(ctx, V, "render", lambda: gf.render((maxcol,), False))
     if not ok:
         return
     ctx.obs(case, canv.rows())
-    ctx.distinct("nontrivial", ("gf", ncells, cw, hsep, vsep, align, maxcol, tall))
+    ctx.distinct("nontrivial", ("gf", ncells, cw, hsep, vsep, align, maxcol, tall, wide))
     w = min(cw, maxcol)
+    ws = [min(cw + 2, maxcol) if i == wide else w for i in range(ncells)]
     for i, p in enumerate(probes):
         for e in p.log:
             if e[0] in ("negative", "bad-dim"):
                 V("no-negative", f"cell {i} was handed size {e[2]} in {e[1]}")
         got = [r[1] for r in p.renders()]
-        if got != [(w,)]:
-            V("cell-width", f"cell {i}: render sizes {got}, configured cell width {cw} in {maxcol} columns expects [({w},)]")
+        if got != [(ws[i],)]:
+            V("cell-width", f"cell {i}: render sizes {got}, configured cell width {cw + 2 if i == wide else cw} in {maxcol} columns expects [({ws[i]},)]", "own-width" if wide is not None else "")
     if canv.cols() != maxcol:
         V("cell-width", f"canvas is {canv.cols()} wide, asked {maxcol}")
         return
     # the same GridFlow after its cell width is reassigned (the earlier canvas still alive): every cell gets the new width
     w_seen = {w}
-    for cw2 in sorted({cw + 1, max(1, cw - 1)} - {cw}):
+    for cw2 in (sorted({cw + 1, max(1, cw - 1)} - {cw}) if wide is None else ()):
         for p in probes:
             del p.log[:]
         ctx.count("evaluations")
@@ -755,13 +761,13 @@ def check_gridflow(ctx: Ctx, ncells, cw, hsep, vsep, align, focus, maxcol, tall)
     for i, p in enumerate(probes):
         name = f"g{i}"
         if name not in pos:
-            V("reading-order", f"cell {i} is not shown at all")
+            V("reading-order", f"cell {i} is not shown at all", "own-width" if wide is not None else "")
             return
-        if area[name] != w * p.nat[1]:
-            V("cell-width", f"cell {i} covers {area[name]} screen cells, expected {w}x{p.nat[1]}")
+        if area[name] != ws[i] * p.nat[1]:
+            V("cell-width", f"cell {i} covers {area[name]} screen cells, expected {ws[i]}x{p.nat[1]}", "own-width" if wide is not None else "")
         if prev is not None:
             (py, px), (y, x) = prev, pos[name]
-            if not (y > py or (y == py and x >= px + w)):
+            if not (y > py or (y == py and x >= px + ws[i - 1])):
                 V("reading-order", f"cell {i} at {(x, y)} is not after cell {i - 1} at {(px, py)} in reading order")
         prev = pos[name]
 
@@ -778,6 +784,9 @@ def gridflow_task(task, ctx: Ctx):
                         for maxcol in maxcols:
                             for tall in (False, True):
                                 check_gridflow(ctx, ncells, cw, hsep, vsep, align, focus, maxcol, tall)
+                                if not tall and focus == 0:
+                                    for wide in sorted({0, ncells // 2, ncells - 1}):
+                                        check_gridflow(ctx, ncells, cw, hsep, vsep, align, focus, maxcol, tall, wide)
 
 
 # ----------------------------------------------------------------------
@@ -990,7 +999,7 @@ def run(tier, R):
         f"{3 if tier == 'quick' else 4} over {len(popts)} options with >= 1 weighted item x focus x rows 1..{maxrows[-1]}; Padding/Filler: "
         f"{len(kinds)} size kinds x 9 alignments x min None/1/3 x margins 0..2 each side x available 1..{12 if tier == 'quick' else 18}; Overlay: "
         "width kind x height kind x 5 aligns x 5 valigns x margins x sizes; GridFlow: 1.."
-        f"{5 if tier == 'quick' else 7} cells x cell width 1..4 x h_sep/v_sep 0..2 x align x available; reassignment: every ordered pair of option sets differing in one or two fields for Padding "
+        f"{5 if tier == 'quick' else 7} cells x cell width 1..4 x h_sep/v_sep 0..2 x align x available, also with one cell carrying its own larger width option; reassignment: every ordered pair of option sets differing in one or two fields for Padding "
         "(align, width setters), Overlay (set_overlay_parameters), Columns and box Pile (contents[i] = (widget, options)) and GridFlow (cell_width): the live container, with its earlier "
         "canvases alive, must show what a fresh container built with the new options shows, at three sizes. non-trivial = distinct configurations in which "
         "at least one child is visible",
@@ -1035,4 +1044,4 @@ def replay(case, ctx):
         check_overlay(ctx, tuple(case["width"]), tuple(case["height"]), tuple(case["align"]), tuple(case["valign"]), tuple(case["min"]),
                       tuple(case["margins"]), tuple(case["size"]))
     elif part == "gridflow":
-        check_gridflow(ctx, case["cells"], case["cell_width"], case["h_sep"], case["v_sep"], case["align"], case["focus"], case["maxcol"], case["tall"])
+        check_gridflow(ctx, case["cells"], case["cell_width"], case["h_sep"], case["v_sep"], case["align"], case["focus"], case["maxcol"], case["tall"], case.get("wide"))
